@@ -14,22 +14,20 @@ Definition path := list string.
 Definition rot (c : ascii) : N :=
   let n := N_of_ascii c in if (n <? 46)%N then (n + 210)%N else (n - 46)%N.
 
-Fixpoint seg_cmp (a b : string) : comparison :=
-  match a, b with
-  | EmptyString, EmptyString => Eq
-  | EmptyString, String _ _ => Lt
-  | String _ _, EmptyString => Gt
-  | String c a', String d b' =>
-      match N.compare (rot c) (rot d) with Eq => seg_cmp a' b' | r => r end
-  end.
+(* lexicographic comparison of lists, shorter-is-smaller *)
+Definition lex_cmp {A} (cmp : A -> A -> comparison) : list A -> list A -> comparison :=
+  fix go (a b : list A) : comparison :=
+    match a, b with
+    | [], [] => Eq
+    | [], _ :: _ => Lt
+    | _ :: _, [] => Gt
+    | x :: a', y :: b' => match cmp x y with Eq => go a' b' | r => r end
+    end.
 
-Fixpoint path_cmp (p q : path) : comparison :=
-  match p, q with
-  | [], [] => Eq
-  | [], _ :: _ => Lt
-  | _ :: _, [] => Gt
-  | s :: p', t :: q' => match seg_cmp s t with Eq => path_cmp p' q' | r => r end
-  end.
+Definition byte_cmp (c d : ascii) : comparison := N.compare (rot c) (rot d).
+Definition seg_cmp (a b : string) : comparison :=
+  lex_cmp byte_cmp (list_ascii_of_string a) (list_ascii_of_string b).
+Definition path_cmp : path -> path -> comparison := lex_cmp seg_cmp.
 
 Definition path_ltb (p q : path) : bool := match path_cmp p q with Lt => true | _ => false end.
 Definition path_eqb (p q : path) : bool := list_eqb String.eqb p q.
@@ -109,3 +107,16 @@ Definition fm_valid (sch : schema) (ty : string) (ps : list path) : bool :=
 (* no empty segment: the masks the theorems about reads are stated for *)
 Definition seg_ok (s : string) : bool := negb (String.eqb s "").
 Definition segs_ok (ps : list path) : bool := forallb (fun p => forallb seg_ok p) ps.
+
+(* path sets seen from a field: the remainders of the paths that start with segment k, and whether
+   some path ends exactly here *)
+Definition deriv (k : string) (ps : list path) : list path :=
+  flat_map (fun p => match p with
+                     | s :: r => if String.eqb s k then [r] else []
+                     | [] => []
+                     end) ps.
+
+Definition ends_here (ps : list path) : bool :=
+  existsb (fun p => match p with [] => true | _ :: _ => false end) ps.
+
+Definition is_nil (p : path) : bool := match p with [] => true | _ :: _ => false end.
